@@ -125,12 +125,12 @@ func refStr(v any) string {
 }
 
 type refCtx struct {
-	item        any
-	index, n    int
-	inLoop      bool
-	overrides   map[string][]*TNode
-	data        *TData
-	outer       *refCtx // enclosing loop's context
+	item      any
+	index, n  int
+	inLoop    bool
+	overrides map[string][]*TNode
+	data      *TData
+	outer     *refCtx // enclosing loop's context
 }
 
 func refRender(ns []*TNode, cx *refCtx) string {
